@@ -309,6 +309,12 @@ static void op_ols(void) {
     snprintf(key, sizeof key, "normal-eq|OrdinaryLeastSquares|%s", cls);
     judge(err, CSAFE * DEPS * m * kap * kap * (double)(sqrtl(fx) * sqrtl(fy)), key, "(%dx%d) s1 %g fam %d ykind %d: max|X'(y-Xb)|", m, n, s1, fam, yk);
     vx_outcome(hv_hash(b, 40));
+    /* the coefficient vector is (re)sized and assigned by the routine: solving again into the vector that already holds
+     * the solution, or into one that holds the solution of another system of the same size, returns the same solution */
+    { dvector *b2; initDVector(&b2); DVectorCopy(b, b2); arm("OrdinaryLeastSquares", cls); OrdinaryLeastSquares(x, yv, b); disarm(); vx_transition(1);
+      snprintf(key, sizeof key, "reuse|OrdinaryLeastSquares|%s", cls);
+      vx_check(b->size == b2->size && hv_maxdiff(b, b2) == 0, key, "(%dx%d): second call into the filled coefficient vector differs by %g", m, n, hv_maxdiff(b, b2));
+      DelDVector(&b2); }
   } else vx_outcome(78);
   DelMatrix(&x); DelDVector(&yv); DelDVector(&b);
 }
